@@ -1271,7 +1271,7 @@ class FunctionBody:
         if fpx.weight(s, self.tr.outline_all) == 0:
             return None
         texts = [self.expr(a) for a in atoms]
-        if all(re.match(r'^\(?(DBL_EPSILON|DBL_MAX|DBL_MIN|G_\w+|[-0-9.xa-fp+]+)\)?$', t) for t in texts):
+        if all(re.match(r'^\(*(DBL_EPSILON|DBL_MAX|DBL_MIN|G_\w+|-?0x[0-9a-f.]+p[-+]?\d+|-?\d[\d.]*(e[-+]?\d+)?)\)*$', t) for t in texts):
             return None          # constant expression: stays concrete (the compiler folds it too)
         return self.fp_emit(s, texts)
 
